@@ -21,5 +21,11 @@ pub broadcast axiom fn nan_not_le(a: f64, b: f64) ensures s_is_nan(a) ==> !#[tri
 pub broadcast axiom fn inf_not_le_one() ensures !f_le(INFINITY_s(), 1.0f64);
 /// a value clamped to [1.0, 5 as f64] and cast to usize is at most 5 (NaN casts to 0)          kani: clamp_cast_le5
 pub broadcast axiom fn clamp_cast_le5(x: f64) ensures #[trigger] s_to_usize(s_clamp(x, 1.0f64, s_of_usize(5))) <= 5;
-pub broadcast group ieee_axioms { finite_self_diff, eq_refl_literals, gt_irrefl, ngt_trans, nan_add, nan_mul, nan_div, nan_sqrt, nan_not_le, inf_not_le_one, clamp_cast_le5 }
+/// |x| >= 0 unless x is NaN; a >= 0 implies -a <= a and 0 <= a                         kani: abs_ge_zero neg_le_self
+pub broadcast axiom fn abs_ge_zero(x: f64) ensures !s_is_nan(x) ==> f_ge(#[trigger] s_abs(x), 0.0f64);
+pub broadcast axiom fn neg_le_self(a: f64) ensures f_ge(a, 0.0f64) ==> f_le(#[trigger] s_neg(a), a) && f_le(0.0f64, a);
+/// the integer 5 as f64 is not below 1.0                                                    kani: one_le_five
+#[verifier::allow(broadcast_without_trigger)]
+pub broadcast axiom fn one_le_five() ensures f_le(1.0f64, s_of_usize(5));
+pub broadcast group ieee_axioms { finite_self_diff, eq_refl_literals, gt_irrefl, ngt_trans, nan_add, nan_mul, nan_div, nan_sqrt, nan_not_le, inf_not_le_one, clamp_cast_le5, abs_ge_zero, neg_le_self, one_le_five }
 }
